@@ -441,6 +441,23 @@ Fixpoint c03_stale_steps (prev : option osnap) (steps : list (bytes * eobs)) (ev
   | _, _ => 0
   end.
 
+(* the invalid-input message names the input as it was sent: wherever an output shows
+   "invalid input: '", the bytes that follow are the request's input and a closing quote *)
+Definition inv_marker : bytes := s2b "invalid input: '".
+Fixpoint inv_names_input (fuel : nat) (input out : bytes) : bool :=
+  match fuel with
+  | O => true
+  | S f =>
+    match out with
+    | [] => true
+    | _ :: out' =>
+      (if is_prefix inv_marker out then is_prefix (input ++ [39]) (drop (len inv_marker) out) else true)
+      && inv_names_input f input out'
+    end
+  end.
+Definition c03_names_input (steps : list (bytes * eobs)) : bool :=
+  forallb (fun s => inv_names_input (S (List.length (eo_out (snd s)))) (fst s) (eo_out (snd s))) steps.
+
 Definition c03_class (ec : ecase) : option N :=
   let a := c03_steps (ec_long ec) (events_long ec) in
   let b := c03_steps (ec_pers ec) (events_pers ec) in
@@ -452,7 +469,8 @@ Definition c03_class (ec : ecase) : option N :=
             | Some _ => 0
             | None => N.max (c03_stale_steps None (ec_long ec) (events_long ec)) (c03_stale_steps None (ec_pers ec) (events_pers ec))
             end in
-  if (a =? 2) || (b =? 2) || negb obs || (st =? 3) then Some 0
+  if (a =? 2) || (b =? 2) || negb obs || (st =? 3)
+     || negb (c03_names_input (ec_long ec) && c03_names_input (ec_pers ec)) then Some 0
   else if (a =? 1) || (b =? 1) then Some 1
   else if st =? 2 then Some 2 else None.
 Definition engine_violations_c03 (cs : list ecase) : list (N * N) := classify c03_class 0 cs.
